@@ -5,35 +5,32 @@
    defects included.  Function names follow the Python (`_stream_read`, `Array.encode`, ...).
 
      ty   deep embedding of the type classes the library exports or constructs
-     val  Python values (ints, bools, floats as binary64 bit patterns, str, bytes, list, tuple,
-          ordered dict with None/str keys, None)
+     val  Python values (Model/CodecPrim.v)
      encode : ty -> val -> res bytes                      = T.encode(value)
+     encode_args : ty -> list val -> res bytes            = T.encode( *args )  (positional call)
      decode : ty -> bytes -> res (val * bytes)            = T.decode(stream) : value and unread rest
      decode_fuel : nat -> ty -> bytes -> dres             the same with explicit fuel for the
           `while True` loop of Array._decode_all ([DOutOfFuel]) and with the stream position at
           the moment a BufferEmptyError is raised ([DEmpty rest]; _decode_all resumes from there).
 
+   Exceptions: inside, the Python exception class that is raised ([Foreign TypeError], ...); the
+   public wrappers ([pub_encode] = DataType.encode, [dwrap] = DataType.decode) sit exactly where the
+   code has its `try/except Exception`.  Overriding public methods repeat the wrapping (STRINGN.encode,
+   STRINGI.encode/decode, DATE_AND_TIME.encode, Array.decode) or only part of it (Array.encode: the
+   length test is OUTSIDE the try; DATE_AND_TIME.encode: the arity error precedes the body).
+
    Elementary rows come from Gen/Types.v through [fmt_sem] / [ty_of_name]: a changed format,
-   size, length type, encoding or host type in /repo changes which [ty] a name denotes. *)
-From PV Require Import Base.Bytes Base.Res Gen.Types Gen.CodecFacts Model.CodecFloat.
+   size, length type, encoding or host type in /repo changes which [ty] a name denotes.
+   EPATH and the CIP segment classes are not here (Model/Path.v, property C09). *)
+From Coq Require Import String.
+From PV Require Import Base.Bytes Base.Res Base.Proto.
+From PV Require Import Gen.Types Gen.CodecFacts Gen.Vendors Gen.Status.
+From PV Require Export Model.CodecFloat Model.CodecPrim.
 Open Scope Z_scope.
 
-Definition text := list Z.
-(* dict keys / member names: Python None or a str ("" = Some []) *)
-Definition key := option text.
-
-Inductive val :=
-  | VNone
-  | VBool (b : bool)
-  | VInt (z : Z)
-  | VFloat (bits : Z)            (* IEEE binary64 bit pattern *)
-  | VStr (s : text)
-  | VBytes (b : bytes)
-  | VList (l : list val)
-  | VTuple (l : list val)
-  | VDict (d : list (key * val)).
-
-Inductive tenc := Latin1 | Utf8 | Utf16 | Utf32.
+(* post-processing kind of a Struct class: plain Struct(...), or the two subclasses in
+   custom_types.py that override _decode (and, for ModuleIdentityObject, _encode) *)
+Inductive skind := SPlain | SModuleIdentity | SListIdentity.
 
 Inductive ty :=
   | TBool
@@ -42,254 +39,20 @@ Inductive ty :=
   | TDateTime                                       (* DATE_AND_TIME *)
   | TStr (lsg : bool) (lw : nat) (enc : tenc)       (* StringDataType: len_type (an integer type), encoding *)
   | TStringN
-  | TNBytes (n : Z)                                 (* n_bytes(n); -1 = rest of the buffer *)
+  | TStringI
+  | TNBytes (n : Z)                                 (* n_bytes(n) (always an INSTANCE); -1 = rest of the buffer *)
   | TBits (w : nat)                                 (* BitArrayType over an unsigned host of w bytes *)
   | TArrFixed (n : nat) (e : ty)                    (* Array(n, T) / T[n] *)
-  | TArrPrefix (lsg : bool) (lw : nat) (e : ty)     (* Array(<integer type class>, T) *)
+  | TArrPrefix (inst : bool) (lt : ty) (e : ty)     (* Array(L, T) / T[L], L a type class (inst=false) or instance *)
   | TArrAll (e : ty)                                (* Array(None, T) *)
-  | TStruct (ms : list (key * ty))                  (* Struct(*members): member name (None/""/str), type *)
+  | TStruct (k : skind) (ms : list (key * ty))      (* Struct(m1, ...): member name (None / "" / str), type *)
   | TFixedStr (cap : nat) (lsg : bool) (lw : nat)   (* FixedSizeString(cap, len_type) *)
-  | TStructTag (ms : list (key * ty)) (offs : list nat)      (* StructTag: members, their offsets, *)
-               (bits : list (text * (nat * nat)))            (* bit members name -> (offset, bit)  *)
-               (priv : list text) (size : nat)               (* private names, struct_size         *)
+  | TStructTag (ms : list ((key * nat) * ty))       (* StructTag: (member name, offset), type              *)
+               (bits : list (text * (nat * nat)))   (* bit members name -> (offset, bit)                   *)
+               (priv : list text) (size : nat)      (* private names, struct_size                          *)
   | TIPAddr
   | TPcccAscii
   | TPcccString.
-
-(* ------------------------------------------------------------------ result of a decode *)
-Inductive dres :=
-  | DOk (v : val) (rest : bytes)
-  | DErr (e : exn)               (* any exception but BufferEmptyError *)
-  | DEmpty (rest : bytes)        (* BufferEmptyError, raised with the stream positioned at [rest] *)
-  | DOutOfFuel.                  (* the `while True` loop of _decode_all did not finish within the fuel *)
-
-Definition dbind (r : dres) (f : val -> bytes -> dres) : dres :=
-  match r with DOk v rest => f v rest | DErr e => DErr e | DEmpty r => DEmpty r | DOutOfFuel => DOutOfFuel end.
-
-(* DataType.decode: `except Exception as err: if BufferEmptyError: raise, else raise DataError` *)
-Definition dwrap (r : dres) : dres :=
-  match r with DErr _ => DErr DataError | x => x end.
-
-Definition dres_of_res (r : res val) (rest : bytes) : dres :=
-  match r with Ok v => DOk v rest | Err e => DErr e end.
-
-(* ------------------------------------------------------------------ Python primitives on values *)
-Definition zlen {A} (l : list A) : Z := Z.of_nat (length l).
-
-(* bool(x) *)
-Definition truthy (v : val) : bool :=
-  match v with
-  | VNone => false
-  | VBool b => b
-  | VInt z => negb (z =? 0)
-  | VFloat b => float_truthy b
-  | VStr s => match s with [] => false | _ => true end
-  | VBytes b => match b with [] => false | _ => true end
-  | VList l => match l with [] => false | _ => true end
-  | VTuple l => match l with [] => false | _ => true end
-  | VDict d => match d with [] => false | _ => true end
-  end.
-
-Definition key_val (k : key) : val := match k with None => VNone | Some s => VStr s end.
-
-(* len(x) : TypeError for objects without __len__ *)
-Definition py_len (v : val) : res Z :=
-  match v with
-  | VStr s => Ok (zlen s)
-  | VBytes b => Ok (zlen b)
-  | VList l => Ok (zlen l)
-  | VTuple l => Ok (zlen l)
-  | VDict d => Ok (zlen d)
-  | _ => Err (Foreign TypeError)
-  end.
-
-(* iter(x) : the items a `for`/`zip`/`enumerate` sees *)
-Definition py_iter (v : val) : res (list val) :=
-  match v with
-  | VStr s => Ok (map (fun c => VStr [c]) s)
-  | VBytes b => Ok (map VInt b)
-  | VList l => Ok l
-  | VTuple l => Ok l
-  | VDict d => Ok (map (fun kv => key_val (fst kv)) d)
-  | _ => Err (Foreign TypeError)
-  end.
-
-(* x[i] for 0 <= i (dict keys are None/str in this model: an int index is a KeyError) *)
-Definition py_index (v : val) (i : nat) : res val :=
-  match v with
-  | VStr s => match nth_error s i with Some c => Ok (VStr [c]) | None => Err (Foreign IndexError) end
-  | VBytes b => match nth_error b i with Some c => Ok (VInt c) | None => Err (Foreign IndexError) end
-  | VList l => match nth_error l i with Some x => Ok x | None => Err (Foreign IndexError) end
-  | VTuple l => match nth_error l i with Some x => Ok x | None => Err (Foreign IndexError) end
-  | VDict _ => Err (Foreign KeyError)
-  | _ => Err (Foreign TypeError)
-  end.
-
-(* x[a:b] for 0 <= a <= b on sequences *)
-Definition py_slice (v : val) (a b : nat) : res val :=
-  match v with
-  | VStr s => Ok (VStr (slice a b s))
-  | VBytes s => Ok (VBytes (slice a b s))
-  | VList l => Ok (VList (firstn (b - a) (skipn a l)))
-  | VTuple l => Ok (VTuple (firstn (b - a) (skipn a l)))
-  | VDict _ => Err (Foreign KeyError)
-  | _ => Err (Foreign TypeError)
-  end.
-
-(* data[:k] for any integer k (negative k counts from the end) *)
-Definition slice_to {A} (k : Z) (l : list A) : list A :=
-  if 0 <=? k then firstn (Z.to_nat k) l else firstn (Z.to_nat (zlen l + k)) l.
-
-Fixpoint text_eqb (x y : text) : bool :=
-  match x, y with
-  | [], [] => true
-  | c :: x', d :: y' => (c =? d) && text_eqb x' y'
-  | _, _ => false
-  end.
-Definition keyb (a b : key) : bool :=
-  match a, b with
-  | None, None => true
-  | Some x, Some y => text_eqb x y
-  | _, _ => false
-  end.
-
-(* d[k] : KeyError when absent *)
-Fixpoint dict_get (d : list (key * val)) (k : key) : res val :=
-  match d with
-  | [] => Err (Foreign KeyError)
-  | (k', v) :: r => if keyb k' k then Ok v else dict_get r k
-  end.
-(* d[k] = v : replaces in place, or appends (insertion order kept) *)
-Fixpoint dict_set (d : list (key * val)) (k : key) (v : val) : list (key * val) :=
-  match d with
-  | [] => [(k, v)]
-  | (k', v') :: r => if keyb k' k then (k', v) :: r else (k', v') :: dict_set r k v
-  end.
-(* d.pop(k, None) *)
-Fixpoint dict_pop (d : list (key * val)) (k : key) : list (key * val) :=
-  match d with
-  | [] => []
-  | (k', v') :: r => if keyb k' k then r else (k', v') :: dict_pop r k
-  end.
-Definition mem_text (s : text) (l : list text) : bool := existsb (text_eqb s) l.
-Definition key_in (k : key) (l : list text) : bool :=
-  match k with None => false | Some s => mem_text s l end.
-
-(* ------------------------------------------------------------------ text codecs: str.encode / bytes.decode *)
-Definition is_surrogate (c : Z) : bool := (0xD800 <=? c) && (c <=? 0xDFFF).
-Definition scalar_ok (c : Z) : bool := (0 <=? c) && (c <=? 0x10FFFF) && negb (is_surrogate c).
-
-Definition enc_char (e : tenc) (c : Z) : option bytes :=
-  match e with
-  | Latin1 => if (0 <=? c) && (c <? 256) then Some [c] else None
-  | Utf8 =>
-      if negb (scalar_ok c) then None
-      else if c <? 0x80 then Some [c]
-      else if c <? 0x800 then Some [0xC0 + c / 64; 0x80 + c mod 64]
-      else if c <? 0x10000 then Some [0xE0 + c / 4096; 0x80 + (c / 64) mod 64; 0x80 + c mod 64]
-      else Some [0xF0 + c / 262144; 0x80 + (c / 4096) mod 64; 0x80 + (c / 64) mod 64; 0x80 + c mod 64]
-  | Utf16 =>
-      if negb (scalar_ok c) then None
-      else if c <? 0x10000 then Some (le_enc 2 c)
-      else let c' := c - 0x10000 in Some (le_enc 2 (0xD800 + c' / 1024) ++ le_enc 2 (0xDC00 + c' mod 1024))
-  | Utf32 => if scalar_ok c then Some (le_enc 4 c) else None
-  end.
-
-(* s.encode(enc): UnicodeEncodeError on an unencodable character *)
-Fixpoint text_encode (e : tenc) (s : text) : res bytes :=
-  match s with
-  | [] => Ok []
-  | c :: r => match enc_char e c with
-              | None => Err (Foreign UnicodeError)
-              | Some bs => match text_encode e r with Ok rs => Ok (bs ++ rs) | Err x => Err x end
-              end
-  end.
-
-Definition is_cont (b : Z) : bool := (0x80 <=? b) && (b <=? 0xBF).
-
-(* strict UTF-8 (no overlongs, no surrogates, <= U+10FFFF) *)
-Fixpoint utf8_decode (fuel : nat) (bs : bytes) : option text :=
-  match fuel with
-  | O => match bs with [] => Some [] | _ => None end
-  | S f =>
-      match bs with
-      | [] => Some []
-      | b0 :: r0 =>
-          if b0 <? 0x80 then option_map (cons b0) (utf8_decode f r0)
-          else if (0xC2 <=? b0) && (b0 <=? 0xDF) then
-            match r0 with
-            | b1 :: r1 => if is_cont b1 then option_map (cons ((b0 - 0xC0) * 64 + (b1 - 0x80))) (utf8_decode f r1) else None
-            | _ => None
-            end
-          else if (0xE0 <=? b0) && (b0 <=? 0xEF) then
-            match r0 with
-            | b1 :: b2 :: r2 =>
-                let lo := if b0 =? 0xE0 then 0xA0 else 0x80 in
-                let hi := if b0 =? 0xED then 0x9F else 0xBF in
-                if (lo <=? b1) && (b1 <=? hi) && is_cont b2
-                then option_map (cons ((b0 - 0xE0) * 4096 + (b1 - 0x80) * 64 + (b2 - 0x80))) (utf8_decode f r2)
-                else None
-            | _ => None
-            end
-          else if (0xF0 <=? b0) && (b0 <=? 0xF4) then
-            match r0 with
-            | b1 :: b2 :: b3 :: r3 =>
-                let lo := if b0 =? 0xF0 then 0x90 else 0x80 in
-                let hi := if b0 =? 0xF4 then 0x8F else 0xBF in
-                if (lo <=? b1) && (b1 <=? hi) && is_cont b2 && is_cont b3
-                then option_map (cons ((b0 - 0xF0) * 262144 + (b1 - 0x80) * 4096 + (b2 - 0x80) * 64 + (b3 - 0x80)))
-                                (utf8_decode f r3)
-                else None
-            | _ => None
-            end
-          else None
-      end
-  end.
-
-Fixpoint utf16_decode (fuel : nat) (bs : bytes) : option text :=
-  match fuel with
-  | O => match bs with [] => Some [] | _ => None end
-  | S f =>
-      match bs with
-      | [] => Some []
-      | l0 :: h0 :: r0 =>
-          let u := l0 + 256 * h0 in
-          if (0xD800 <=? u) && (u <=? 0xDBFF) then
-            match r0 with
-            | l1 :: h1 :: r1 =>
-                let u2 := l1 + 256 * h1 in
-                if (0xDC00 <=? u2) && (u2 <=? 0xDFFF)
-                then option_map (cons (0x10000 + (u - 0xD800) * 1024 + (u2 - 0xDC00))) (utf16_decode f r1)
-                else None
-            | _ => None
-            end
-          else if (0xDC00 <=? u) && (u <=? 0xDFFF) then None
-          else option_map (cons u) (utf16_decode f r0)
-      | _ => None
-      end
-  end.
-
-Fixpoint utf32_decode (fuel : nat) (bs : bytes) : option text :=
-  match fuel with
-  | O => match bs with [] => Some [] | _ => None end
-  | S f =>
-      match bs with
-      | [] => Some []
-      | b0 :: b1 :: b2 :: b3 :: r =>
-          let c := le_dec [b0; b1; b2; b3] in
-          if scalar_ok c then option_map (cons c) (utf32_decode f r) else None
-      | _ => None
-      end
-  end.
-
-(* b.decode(enc): UnicodeDecodeError on malformed data *)
-Definition text_decode (e : tenc) (bs : bytes) : res text :=
-  match e with
-  | Latin1 => Ok bs
-  | Utf8 => match utf8_decode (length bs) bs with Some s => Ok s | None => Err (Foreign UnicodeError) end
-  | Utf16 => match utf16_decode (length bs) bs with Some s => Ok s | None => Err (Foreign UnicodeError) end
-  | Utf32 => match utf32_decode (length bs) bs with Some s => Ok s | None => Err (Foreign UnicodeError) end
-  end.
 
 (* ------------------------------------------------------------------ Gen rows -> types *)
 Inductive fmt_kind := FInt (sg : bool) (w : nat) | FReal (dbl : bool).
@@ -311,10 +74,10 @@ Definition fmt_sem (f : list Z) : option fmt_kind :=
   end.
 
 Definition enc_sem (e : list Z) : option tenc :=
-  if text_eqb e [105; 115; 111; 45; 56; 56; 53; 57; 45; 49] then Some Latin1           (* iso-8859-1 *)
-  else if text_eqb e [117; 116; 102; 45; 56] then Some Utf8                             (* utf-8 *)
-  else if text_eqb e [117; 116; 102; 45; 49; 54; 45; 108; 101] then Some Utf16          (* utf-16-le *)
-  else if text_eqb e [117; 116; 102; 45; 51; 50; 45; 108; 101] then Some Utf32          (* utf-32-le *)
+  if text_eqb e (zs_of_string "iso-8859-1") then Some Latin1
+  else if text_eqb e (zs_of_string "utf-8") then Some Utf8
+  else if text_eqb e (zs_of_string "utf-16-le") then Some Utf16
+  else if text_eqb e (zs_of_string "utf-32-le") then Some Utf32
   else None.
 
 Definition row := (list Z * Z * Z * list Z * list Z * list Z * list Z)%type.
@@ -343,13 +106,14 @@ Definition int_row_in (rows : list row) (n : list Z) : option (bool * nat) :=
   end.
 Definition int_row (n : list Z) : option (bool * nat) := int_row_in type_rows n.
 
-Definition n_BOOL := [66; 79; 79; 76].
-Definition n_DATE_AND_TIME := [68; 65; 84; 69; 95; 65; 78; 68; 95; 84; 73; 77; 69].
-Definition n_STRINGN := [83; 84; 82; 73; 78; 71; 78].
-Definition n_STRINGI := [83; 84; 82; 73; 78; 71; 73].
-Definition n_UDINT := [85; 68; 73; 78; 84].
-Definition n_UINT := [85; 73; 78; 84].
-Definition n_USINT := [85; 83; 73; 78; 84].
+Definition n_BOOL := zs_of_string "BOOL".
+Definition n_DATE_AND_TIME := zs_of_string "DATE_AND_TIME".
+Definition n_STRINGN := zs_of_string "STRINGN".
+Definition n_STRINGI := zs_of_string "STRINGI".
+Definition n_UDINT := zs_of_string "UDINT".
+Definition n_UINT := zs_of_string "UINT".
+Definition n_USINT := zs_of_string "USINT".
+Definition n_SHORT_STRING := zs_of_string "SHORT_STRING".
 
 (* the [ty] an exported elementary class name denotes, read off its Gen row *)
 Definition ty_of_row (rows : list row) (r : row) : option ty :=
@@ -357,7 +121,7 @@ Definition ty_of_row (rows : list row) (r : row) : option ty :=
   if text_eqb n n_BOOL then (if (row_size r =? 1) && match row_fmt r with [] => true | _ => false end then Some TBool else None)
   else if text_eqb n n_DATE_AND_TIME then (if row_size r =? 8 then Some TDateTime else None)
   else if text_eqb n n_STRINGN then Some TStringN
-  else if text_eqb n n_STRINGI then None
+  else if text_eqb n n_STRINGI then Some TStringI
   else match row_fmt r with
        | _ :: _ =>
            match fmt_sem (row_fmt r) with
@@ -393,23 +157,8 @@ Definition pccc_ascii_enc : option tenc := enc_sem pccc_ascii_encoding.
 Definition pccc_string_enc : option tenc := enc_sem pccc_string_encoding.
 
 (* STRINGN.ENCODINGS[char_size] (Gen/CodecFacts.v) *)
-Fixpoint zlookup {A} (t : list (Z * A)) (k : Z) : option A :=
-  match t with [] => None | (k', a) :: r => if k' =? k then Some a else zlookup r k end.
 Definition stringn_enc (cs : Z) : option tenc :=
   match zlookup stringn_encodings cs with Some e => enc_sem e | None => None end.
-
-(* ------------------------------------------------------------------ the stream *)
-(* stream.read(n): all remaining bytes when n < 0 *)
-Definition stream_take (n : Z) (bs : bytes) : bytes * bytes :=
-  if n <? 0 then (bs, []) else (firstn (Z.to_nat n) bs, skipn (Z.to_nat n) bs).
-
-(* DataType._stream_read: BufferEmptyError when the read returns no data *)
-Definition stream_read (n : Z) (bs : bytes) (k : bytes -> bytes -> dres) : dres :=
-  let '(d, r) := stream_take n bs in
-  match d with
-  | [] => DEmpty r
-  | _ => k d r
-  end.
 
 (* ------------------------------------------------------------------ elementary types *)
 Definition int_in_range (sg : bool) (w : nat) (z : Z) : bool :=
@@ -428,7 +177,8 @@ Definition unpack_int (sg : bool) (w : nat) (data : bytes) : res val :=
   then Ok (VInt (if sg then to_signed w (le_dec data) else le_dec data))
   else Err (Foreign StructError).
 
-(* the value float(x) that struct.pack("<f"/"<d") starts from *)
+(* the value float(x) that struct.pack("<f"/"<d") starts from (an int too large for a double makes
+   struct raise struct.error, not OverflowError) *)
 Definition as_float (v : val) : res Z :=
   match v with
   | VFloat b => Ok b
@@ -446,9 +196,6 @@ Definition unpack_real (dbl : bool) (data : bytes) : res val :=
   if dbl then (if (length data =? 8)%nat then Ok (VFloat (canon64 (le_dec data))) else Err (Foreign StructError))
   else (if (length data =? 4)%nat then Ok (VFloat (widen32 (le_dec data))) else Err (Foreign StructError)).
 
-(* DataType.encode: try: _encode(value) except Exception: raise DataError *)
-Definition pub_encode (f : val -> res bytes) (v : val) : res bytes := wrap_all DataError (f v).
-
 (* ElementaryDataType._decode behind DataType.decode *)
 Definition elem_decode (size : nat) (unpack : bytes -> res val) (bs : bytes) : dres :=
   dwrap (stream_read (Z.of_nat size) bs (fun data rest => dres_of_res (unpack data) rest)).
@@ -464,22 +211,20 @@ Definition bool_encode : val -> res bytes := pub_encode (fun v => Ok [if truthy 
 Definition bool_decode : bytes -> dres :=
   elem_decode 1 (fun data => Ok (VBool (negb match data with [0] => true | _ => false end))).
 
-(* DATE_AND_TIME: `encode(cls, time, date)` takes TWO positional values, so the uniform call
-   T.encode(value) fails with TypeError before the body (and its try) is entered. *)
+(* the named integer types the bodies of other codecs call (UINT.encode(...), USINT.decode(...)) *)
+Definition named_int_encode (n : list Z) (v : val) : res bytes :=
+  match int_row n with Some (sg, w) => int_encode sg w v | None => Err (Foreign AttributeError) end.
+Definition named_int_decode (n : list Z) (bs : bytes) : dres :=
+  match int_row n with Some (sg, w) => int_decode sg w bs | None => DErr (Foreign AttributeError) end.
+
+(* DATE_AND_TIME: `encode(cls, time, date, *args, **kwargs)` takes TWO positional values, so the
+   uniform call T.encode(value) fails with TypeError before the body (and its try) is entered. *)
 Definition datetime_encode (v : val) : res bytes := Err (Foreign TypeError).
 Definition datetime_encode2 (time date : val) : res bytes :=
-  match int_row n_UDINT, int_row n_UINT with
-  | Some (s1, w1), Some (s2, w2) =>
-      wrap_all DataError (let* a := int_encode s1 w1 time in let* b := int_encode s2 w2 date in Ok (a ++ b))
-  | _, _ => Err (Foreign AttributeError)
-  end.
+  wrap_all DataError (let* a := named_int_encode n_UDINT time in let* b := named_int_encode n_UINT date in Ok (a ++ b)).
 Definition datetime_decode (bs : bytes) : dres :=
-  match int_row n_UDINT, int_row n_UINT with
-  | Some (s1, w1), Some (s2, w2) =>
-      dwrap (dbind (int_decode s1 w1 bs) (fun t r1 =>
-             dbind (int_decode s2 w2 r1) (fun d r2 => DOk (VTuple [t; d]) r2)))
-  | _, _ => DErr (Foreign AttributeError)
-  end.
+  dwrap (dbind (named_int_decode n_UDINT bs) (fun t r1 =>
+         dbind (named_int_decode n_UINT r1) (fun d r2 => DOk (VTuple [t; d]) r2))).
 
 (* StringDataType *)
 Definition str_encode (lsg : bool) (lw : nat) (enc : tenc) : val -> res bytes :=
@@ -491,51 +236,48 @@ Definition str_encode (lsg : bool) (lw : nat) (enc : tenc) : val -> res bytes :=
     | _ => Err (Foreign AttributeError)          (* bytes/list/tuple/dict have no .encode *)
     end).
 
-Definition as_int (v : val) : Z := match v with VInt z => z | _ => 0 end.
-
 Definition str_decode (lsg : bool) (lw : nat) (enc : tenc) (bs : bytes) : dres :=
   dwrap (dbind (int_decode lsg lw bs) (fun n r1 =>
     if as_int n =? 0 then DOk (VStr []) r1
     else stream_read (as_int n) r1 (fun data r2 =>
            match text_decode enc data with Ok s => DOk (VStr s) r2 | Err e => DErr e end))).
 
-(* STRINGN: encode(value, char_size=1) *)
-Definition stringn_encode_cs (cs : Z) (v : val) : res bytes :=
-  match int_row n_UINT with
-  | Some (sg, w) =>
-      wrap_all DataError (
-        match stringn_enc cs with
+(* STRINGN: encode(value, char_size=1) — an overriding public method with its own try *)
+Definition stringn_encode_cs (cs : val) (v : val) : res bytes :=
+  wrap_all DataError (
+    match cs with
+    | VInt _ | VBool _ =>
+        let c := match cs with VBool b => if b then 1 else 0 | _ => as_int cs end in
+        match stringn_enc c with
         | None => Err (Foreign KeyError)
         | Some enc =>
-            let* a := int_encode sg w (VInt cs) in
+            let* a := named_int_encode n_UINT cs in
             let* n := py_len v in
-            let* b := int_encode sg w (VInt n) in
+            let* b := named_int_encode n_UINT (VInt n) in
             match v with
             | VStr s => let* d := text_encode enc s in Ok (a ++ b ++ d)
             | _ => Err (Foreign AttributeError)
             end
-        end)
-  | None => Err (Foreign AttributeError)
-  end.
-Definition stringn_encode : val -> res bytes := stringn_encode_cs 1.
+        end
+    | _ => Err (Foreign KeyError)                 (* ENCODINGS[char_size]: KeyError / TypeError (unhashable) *)
+    end).
+Definition stringn_encode : val -> res bytes := stringn_encode_cs (VInt 1).
 
 Definition stringn_decode (bs : bytes) : dres :=
-  match int_row n_UINT with
-  | Some (sg, w) =>
-      dwrap (dbind (int_decode sg w bs) (fun cs r1 =>
-             dbind (int_decode sg w r1) (fun cnt r2 =>
-               match stringn_enc (as_int cs) with
-               | None => DErr DataError
-               | Some enc =>
-                   stream_read (as_int cnt * as_int cs) r2 (fun data r3 =>
-                     match text_decode enc data with Ok s => DOk (VStr s) r3 | Err e => DErr e end)
-               end)))
-  | None => DErr (Foreign AttributeError)
-  end.
+  dwrap (dbind (named_int_decode n_UINT bs) (fun cs r1 =>
+         dbind (named_int_decode n_UINT r1) (fun cnt r2 =>
+           match stringn_enc (as_int cs) with
+           | None => DErr DataError
+           | Some enc =>
+               stream_read (as_int cnt * as_int cs) r2 (fun data r3 =>
+                 match text_decode enc data with Ok s => DOk (VStr s) r3 | Err e => DErr e end)
+           end))).
 
 (* BytesDataType / n_bytes(n): value[:n] (value[:] when n = -1) of whatever sliceable it is given.
-   Outside the value domain of this model: a str/list/tuple argument makes the implementation
-   return that object's slice (not bytes); the model returns its items when they are integers. *)
+   A str / list / tuple argument makes the implementation RETURN that object's slice (a str or a
+   list, not bytes): the model returns the items ([Ok]) and [encode_result_kind] says what kind of
+   object it is; inside a b"".join (Struct, Array, StructTag) the non-bytes object is a TypeError
+   ([as_member]).  Lists with non-integer items are outside the model (marker: NotImplementedError). *)
 Fixpoint ints_of (l : list val) : option (list Z) :=
   match l with
   | [] => Some []
@@ -549,7 +291,7 @@ Definition nbytes_encode (n : Z) : val -> res bytes :=
     match v with
     | VBytes b => Ok (cut b)
     | VStr s => Ok (cut s)
-    | VList l | VTuple l => match ints_of l with Some zs => Ok (cut zs) | None => Err (Foreign TypeError) end
+    | VList l | VTuple l => match ints_of l with Some zs => Ok (cut zs) | None => Err (Foreign NotImplementedError) end
     | _ => Err (Foreign TypeError)
     end).
 Definition nbytes_decode (n : Z) (bs : bytes) : dres :=
@@ -600,7 +342,7 @@ Definition fixedstr_decode (cap : nat) (lsg : bool) (lw : nat) (bs : bytes) : dr
   end.
 
 (* IPAddress: ipaddress.IPv4Address(value).packed / IPv4Address(4 bytes).exploded *)
-Definition is_digit (c : Z) : bool := (48 <=? c) && (c <=? 57).
+Definition is_dig (c : Z) : bool := (48 <=? c) && (c <=? 57).
 Fixpoint digits_val (s : text) (acc : Z) : Z :=
   match s with [] => acc | c :: r => digits_val r (acc * 10 + (c - 48)) end.
 Fixpoint split_dot (s : text) (cur : text) : list text :=
@@ -613,7 +355,7 @@ Definition octet (s : text) : option Z :=
   match s with
   | [] => None
   | c :: r =>
-      if forallb is_digit s && (length s <=? 3)%nat && negb ((c =? 48) && negb (length s =? 1)%nat)
+      if forallb is_dig s && (length s <=? 3)%nat && negb ((c =? 48) && negb (length s =? 1)%nat)
       then let v := digits_val s 0 in if v <=? 255 then Some v else None
       else None
   end.
@@ -623,6 +365,7 @@ Definition parse_ipv4 (s : text) : option bytes :=
   | _ => None
   end.
 Definition be_enc4 (z : Z) : bytes := rev (le_enc 4 z).
+(* anything that is not an int or bytes goes through str(value): no such string is an address *)
 Definition ip_encode : val -> res bytes :=
   pub_encode (fun v =>
     match v with
@@ -652,18 +395,24 @@ Fixpoint slc_swap (data : bytes) : option bytes :=
   | x1 :: x2 :: r => option_map (fun t => x2 :: x1 :: t) (slc_swap r)
   end.
 
+(* (x or " ").encode(enc) *)
+Definition or_space_encode (enc : tenc) (x : val) : res bytes :=
+  if truthy x then match x with VStr s => text_encode enc s | _ => Err (Foreign AttributeError) end
+  else text_encode enc [32].
+(* char1, char2 = value[:2]; (char2 or " ").encode() + (char1 or " ").encode() *)
 Definition pccc_ascii_encode : val -> res bytes :=
   pub_encode (fun v =>
     match pccc_ascii_enc with
     | None => Err (Foreign AttributeError)
     | Some enc =>
-        match v with
-        | VStr (c1 :: c2 :: _) =>
-            let* a := text_encode enc [c2] in let* b := text_encode enc [c1] in Ok (a ++ b)
-        | VStr _ => Err (Foreign ValueError)
-        | _ => Err (Foreign TypeError)
+        let* sl := py_slice v 0 2 in
+        let* items := py_iter sl in
+        match items with
+        | [c1; c2] => let* a := or_space_encode enc c2 in let* b := or_space_encode enc c1 in Ok (a ++ b)
+        | _ => Err (Foreign ValueError)
         end
     end).
+(* plain stream.read(2): no BufferEmptyError *)
 Definition pccc_ascii_decode (bs : bytes) : dres :=
   match pccc_ascii_enc with
   | None => DErr DataError
@@ -677,28 +426,119 @@ Definition pccc_ascii_decode (bs : bytes) : dres :=
 
 Definition pccc_string_encode : val -> res bytes :=
   pub_encode (fun v =>
-    match pccc_string_enc, int_row n_UINT with
-    | Some enc, Some (sg, w) =>
+    match pccc_string_enc with
+    | Some enc =>
         let* n := py_len v in
-        let* l := int_encode sg w (VInt n) in
+        let* l := named_int_encode n_UINT (VInt n) in
         match v with
         | VStr s => let* d := text_encode enc s in
                     match slc_swap d with Some sw => Ok (l ++ sw) | None => Err (Foreign ValueError) end
         | _ => Err (Foreign AttributeError)
         end
-    | _, _ => Err (Foreign AttributeError)
+    | _ => Err (Foreign AttributeError)
     end).
+(* the length word is read and ignored; plain stream.read(82) *)
 Definition pccc_string_decode (bs : bytes) : dres :=
-  match pccc_string_enc, int_row n_UINT with
-  | Some enc, Some (sg, w) =>
-      dwrap (dbind (int_decode sg w bs) (fun _ r1 =>
+  match pccc_string_enc with
+  | Some enc =>
+      dwrap (dbind (named_int_decode n_UINT bs) (fun _ r1 =>
              let '(d, r2) := stream_take 82 r1 in
              match slc_swap d with
              | None => DErr (Foreign ValueError)
              | Some sw => match text_decode enc sw with Ok s => DOk (VStr s) r2 | Err e => DErr e end
              end))
-  | _, _ => DErr DataError
+  | _ => DErr DataError
   end.
+
+(* ------------------------------------------------------------------ STRINGI *)
+(* str_type.encode(string) / _str_type.decode(stream) for a type class given by NAME.  Only the
+   non-recursive elementary classes are modelled here (the value decides the type, so this cannot be
+   the structural recursion of [encode]); any other name: marker NotImplementedError. *)
+Definition named_encode (n : text) : val -> res bytes :=
+  match ty_of_name n with
+  | Some TBool => bool_encode
+  | Some (TInt sg w) => int_encode sg w
+  | Some (TReal dbl) => real_encode dbl
+  | Some TDateTime => datetime_encode
+  | Some (TStr a b c) => str_encode a b c
+  | Some TStringN => stringn_encode
+  | Some (TBits w) => bits_encode w
+  | _ => fun _ => Err (Foreign NotImplementedError)
+  end.
+Definition named_decode (n : text) : bytes -> dres :=
+  match ty_of_name n with
+  | Some (TStr a b c) => str_decode a b c
+  | Some TStringN => stringn_decode
+  | _ => fun _ => DErr (Foreign NotImplementedError)
+  end.
+
+Definition all_ascii (s : text) : bool := forallb (fun c => (0 <=? c) && (c <? 128)) s.
+
+(* one `(string, str_type, lang, char_set)` item of the loop body *)
+Definition stringi_encode_item (item : val) : res bytes :=
+  let* parts := py_iter item in
+  match parts with
+  | [string; str_type; lang; char_set] =>
+      match str_type with
+      | VType n =>
+          match find_row type_rows n with
+          | Some r =>
+              if byte_ok (row_code r) then                                    (* bytes([str_type.code]) *)
+                let* lg := match lang with                                     (* bytes(lang, "ascii") *)
+                           | VStr s => if all_ascii s then Ok s else Err (Foreign UnicodeError)
+                           | _ => Err (Foreign TypeError)
+                           end in
+                let* cs := named_int_encode n_UINT char_set in
+                let* st := named_encode n string in
+                Ok (lg ++ [row_code r] ++ cs ++ st)
+              else Err (Foreign ValueError)
+          | None => Err (Foreign AttributeError)
+          end
+      | _ => Err (Foreign AttributeError)                                      (* .code *)
+      end
+  | _ => Err (Foreign ValueError)                                              (* unpacking *)
+  end.
+Fixpoint stringi_encode_items (items : list val) : res bytes :=
+  match items with
+  | [] => Ok []
+  | x :: r => let* a := stringi_encode_item x in let* b := stringi_encode_items r in Ok (a ++ b)
+  end.
+(* STRINGI.encode( *strings ) — an overriding public method with its own try *)
+Definition stringi_encode_args (strings : list val) : res bytes :=
+  wrap_all DataError (
+    let* c := named_int_encode n_USINT (VInt (zlen strings)) in
+    let* d := stringi_encode_items strings in
+    Ok (c ++ d)).
+Definition stringi_encode (v : val) : res bytes := stringi_encode_args [v].
+
+Fixpoint stringi_decode_items (count : nat) (bs : bytes) (ss ls cs : list val) : dres :=
+  match count with
+  | O => DOk (VTuple [VList (rev ss); VList (rev ls); VList (rev cs)]) bs
+  | S c =>
+      (* lang = SHORT_STRING.decode(b"\x03" + stream.read(3)) : decoded from a bytes object *)
+      let '(l3, r1) := stream_take 3 bs in
+      match named_decode n_SHORT_STRING (3 :: l3) with
+      | DOk lang _ =>
+          match r1 with
+          | [] => DErr (Foreign IndexError)                                    (* stream.read(1)[0] *)
+          | code :: r2 =>
+              match zlookup stringi_string_types code with
+              | None => DErr (Foreign KeyError)
+              | Some tn =>
+                  dbind (named_int_decode n_UINT r2) (fun chs r3 =>
+                  dbind (named_decode tn r3) (fun s r4 =>
+                    stringi_decode_items c r4 (s :: ss) (lang :: ls) (chs :: cs)))
+              end
+          end
+      | DEmpty _ => DEmpty r1
+      | DErr e => DErr e
+      | DOutOfFuel => DOutOfFuel
+      end
+  end.
+(* STRINGI.decode — an overriding public method with its own try (BufferEmptyError re-raised) *)
+Definition stringi_decode (bs : bytes) : dres :=
+  dwrap (dbind (named_int_decode n_USINT bs) (fun count r1 =>
+           stringi_decode_items (Z.to_nat (as_int count)) r1 [] [] [])).
 
 (* ------------------------------------------------------------------ Array *)
 (* b"".join(element_type.encode(values[i]) for i in range(n)), i counting up from [i] *)
@@ -722,9 +562,11 @@ Fixpoint chunk_vals (fuel : nat) (chunk : nat) (values : val) (i : nat) (n : nat
                 Ok (c :: r)
   end.
 
-(* Array.encode.  [fixed] = Some n for an integer length (declared or the `length=` argument);
-   [bitsz] = Some w when the element type is a BitArrayType of w bytes. *)
-Definition array_encode (fixed : option nat) (bitsz : option nat) (enc : val -> res bytes) (values : val) : res bytes :=
+(* Array.encode.  [fixed] = Some n for an integer length; [bitsz] = Some w when the element type is
+   a BitArrayType of w bytes; [elem_inst] = the element type is an INSTANCE (n_bytes(k)), on which
+   `issubclass(cls.element_type, BitArrayType)` raises TypeError. *)
+Definition array_encode (fixed : option nat) (bitsz : option nat) (elem_inst : bool)
+           (enc : val -> res bytes) (values : val) : res bytes :=
   (* outside the try: *)
   let* nv := py_len values in
   let* len0 := match fixed with
@@ -733,11 +575,12 @@ Definition array_encode (fixed : option nat) (bitsz : option nat) (enc : val -> 
                end in
   (* inside the try: *)
   wrap_all DataError (
+    if elem_inst then Err (Foreign TypeError) else
     match bitsz with
     | Some w =>
         let chunk := (w * 8)%nat in
         match chunk with
-        | O => Err (Foreign ZeroDivisionError)
+        | O => Err (Foreign ValueError)
         | _ =>
             let len1 := Z.to_nat (nv / Z.of_nat chunk) in
             let* chunks := chunk_vals (S (Z.to_nat nv)) chunk values 0 (Z.to_nat nv) in
@@ -763,17 +606,20 @@ Fixpoint chain_vals (l : list val) : res (list val) :=
   | v :: r => let* a := py_iter v in let* b := chain_vals r in Ok (a ++ b)
   end.
 
-Definition array_decode_fixed (n : nat) (is_bits : bool) (dec : bytes -> dres) (bs : bytes) : dres :=
+Definition array_decode_fixed (n : nat) (is_bits : bool) (elem_inst : bool) (dec : bytes -> dres) (bs : bytes) : dres :=
   dwrap (dbind (decode_n dec n bs) (fun vs rest =>
-    if is_bits then match vs with
+    if elem_inst then DErr (Foreign TypeError)
+    else if is_bits then match vs with
                     | VList l => match chain_vals l with Ok f => DOk (VList f) rest | Err e => DErr e end
                     | _ => DErr (Foreign TypeError)
                     end
     else DOk vs rest)).
 
-(* Array(<type class>, T).decode: `isinstance(_length, DataType)` is False for a class, so no
-   prefix is read and `range(_length)` raises TypeError. *)
-Definition array_decode_prefix (bs : bytes) : dres := dwrap (DErr (Foreign TypeError)).
+(* Array(L, T).decode with L a DataType: for a CLASS `isinstance(_length, DataType)` is False, so no
+   prefix is read; for an INSTANCE the prefix is read into `_len`; either way the loop is
+   `range(_length)`: TypeError. *)
+Definition array_decode_prefix (inst : bool) (declen : bytes -> dres) (bs : bytes) : dres :=
+  dwrap (if inst then dbind (declen bs) (fun _ _ => DErr (Foreign TypeError)) else DErr (Foreign TypeError)).
 
 (* Array._decode_all: `while True: try: append(decode) except BufferEmptyError: break` *)
 Fixpoint decode_all (dec : bytes -> dres) (fuel : nat) (bs : bytes) : dres :=
@@ -812,12 +658,11 @@ Fixpoint struct_encode_seq (ms : list (key * (val -> res bytes))) (vs : list val
       Ok (b ++ rs)
   | _, _ => Ok []
   end.
-Definition struct_encode (ms : list (key * (val -> res bytes))) : val -> res bytes :=
-  pub_encode (fun v =>
-    match v with
-    | VDict d => struct_encode_dict ms d
-    | _ => let* items := py_iter v in struct_encode_seq ms items
-    end).
+Definition struct_encode_inner (ms : list (key * (val -> res bytes))) (v : val) : res bytes :=
+  match v with
+  | VDict d => struct_encode_dict ms d
+  | _ => let* items := py_iter v in struct_encode_seq ms items
+  end.
 
 (* {typ.name: typ.decode(stream) for typ in members} *)
 Fixpoint struct_decode_members (ms : list (key * (bytes -> dres))) (acc : list (key * val)) (bs : bytes) : dres :=
@@ -826,11 +671,115 @@ Fixpoint struct_decode_members (ms : list (key * (bytes -> dres))) (acc : list (
   | (k, dec) :: r =>
       dbind (dec bs) (fun v r1 => struct_decode_members r (dict_set acc k v) r1)
   end.
-Definition struct_decode (ms : list (key * (bytes -> dres))) (bs : bytes) : dres :=
-  dwrap (dbind (struct_decode_members ms [] bs) (fun v rest =>
+Definition struct_decode_inner (ms : list (key * (bytes -> dres))) (bs : bytes) : dres :=
+  dbind (struct_decode_members ms [] bs) (fun v rest =>
     match v with
     | VDict d => DOk (VDict (dict_pop (dict_pop d (Some [])) None)) rest
     | _ => DErr (Foreign TypeError)
+    end).
+
+(* --- identity objects: custom_types.py ModuleIdentityObject / ListIdentityObject ---
+   VENDORS / PRODUCT_TYPES = {**_T, **{v: k for k, v in _T.items()}} : the LAST binding wins *)
+Fixpoint ilookup {A} (d : list (Z * A)) (k : Z) : option A :=
+  match d with
+  | [] => None
+  | (k', v) :: r => match ilookup r k with Some v' => Some v' | None => if k' =? k then Some v else None end
+  end.
+Fixpoint rlookup (d : list (Z * text)) (n : text) : option Z :=
+  match d with
+  | [] => None
+  | (k, v) :: r => match rlookup r n with Some k' => Some k' | None => if text_eqb v n then Some k else None end
+  end.
+Definition UNKNOWN : text := zs_of_string "UNKNOWN".
+(* T.get(x, "UNKNOWN") *)
+Definition table_get (t : list (Z * text)) (x : val) : val :=
+  match x with
+  | VInt i => match ilookup t i with Some n => VStr n | None => VStr UNKNOWN end
+  | VBool b => match ilookup t (if b then 1 else 0) with Some n => VStr n | None => VStr UNKNOWN end
+  | VStr n => match rlookup t n with Some i => VInt i | None => VStr UNKNOWN end
+  | _ => VStr UNKNOWN
+  end.
+(* T[x] *)
+Definition table_getitem (t : list (Z * text)) (x : val) : res val :=
+  match x with
+  | VInt i => match ilookup t i with Some n => Ok (VStr n) | None => Err (Foreign KeyError) end
+  | VBool b => match ilookup t (if b then 1 else 0) with Some n => Ok (VStr n) | None => Err (Foreign KeyError) end
+  | VStr n => match rlookup t n with Some i => Ok (VInt i) | None => Err (Foreign KeyError) end
+  | _ => Err (Foreign KeyError)
+  end.
+
+(* format(n, "08x") for n >= 0: zero-padded on the left to a MINIMUM width of 8 *)
+Fixpoint hex_digits (fuel : nat) (n : Z) (acc : text) : text :=
+  match fuel with
+  | O => acc
+  | S f => let acc' := hexdigit (n mod 16) :: acc in
+           if n <? 16 then acc' else hex_digits f (n / 16) acc'
+  end.
+Definition py_hex (n : Z) : text := hex_digits (S (Z.to_nat (Z.log2 n))) n [].
+Definition fmt_08x (n : Z) : text := let d := py_hex n in repeat 48 (8 - length d) ++ d.
+Definition is_space (c : Z) : bool := (c =? 32) || ((9 <=? c) && (c <=? 13)).
+(* bytes.fromhex(s): pairs of hex digits of either case, ASCII whitespace allowed between pairs *)
+Fixpoint bytes_fromhex (s : text) : res bytes :=
+  match s with
+  | [] => Ok []
+  | c :: r =>
+      if is_space c then bytes_fromhex r else
+      match r with
+      | [] => Err (Foreign ValueError)
+      | d :: r' => match hexval c, hexval d with
+                   | Some a, Some b => let* t := bytes_fromhex r' in Ok (16 * a + b :: t)
+                   | _, _ => Err (Foreign ValueError)
+                   end
+      end
+  end.
+(* int.from_bytes(bs, "big") *)
+Definition int_from_bytes_big (bs : bytes) : Z := fold_left (fun acc b => acc * 256 + b) bs 0.
+
+Definition k_vendor : key := Some (zs_of_string "vendor").
+Definition k_product_type : key := Some (zs_of_string "product_type").
+Definition k_serial : key := Some (zs_of_string "serial").
+
+(* the tail of ModuleIdentityObject._decode / ListIdentityObject._decode *)
+Definition identity_post (d : list (key * val)) : res (list (key * val)) :=
+  let* pt := dict_get d k_product_type in
+  let d1 := dict_set d k_product_type (table_get product_types pt) in
+  let* vd := dict_get d1 k_vendor in
+  let d2 := dict_set d1 k_vendor (table_get vendors vd) in
+  let* sr := dict_get d2 k_serial in
+  match sr with
+  | VInt z => if 0 <=? z then Ok (dict_set d2 k_serial (VStr (fmt_08x z))) else Err (Foreign NotImplementedError)
+  | _ => Err (Foreign ValueError)                    (* format spec "08x" on a non-integer *)
+  end.
+(* the head of ModuleIdentityObject._encode *)
+Definition identity_pre (v : val) : res val :=
+  match v with
+  | VDict d =>
+      let* pt := dict_get d k_product_type in
+      let* ptc := table_getitem product_types pt in
+      let d1 := dict_set d k_product_type ptc in
+      let* vd := dict_get d1 k_vendor in
+      let* vc := table_getitem vendors vd in
+      let d2 := dict_set d1 k_vendor vc in
+      let* sr := dict_get d2 k_serial in
+      let* sb := match sr with VStr s => bytes_fromhex s | _ => Err (Foreign TypeError) end in
+      Ok (VDict (dict_set d2 k_serial (VInt (int_from_bytes_big sb))))
+  | _ => Err (Foreign AttributeError)                (* values.copy() / values["product_type"] *)
+  end.
+
+Definition struct_encode (k : skind) (ms : list (key * (val -> res bytes))) : val -> res bytes :=
+  pub_encode (fun v =>
+    match k with
+    | SModuleIdentity => let* v' := identity_pre v in struct_encode_inner ms v'
+    | _ => struct_encode_inner ms v
+    end).
+Definition struct_decode (k : skind) (ms : list (key * (bytes -> dres))) (bs : bytes) : dres :=
+  dwrap (dbind (struct_decode_inner ms bs) (fun v rest =>
+    match k with
+    | SPlain => DOk v rest
+    | _ => match v with
+           | VDict d => match identity_post d with Ok d' => DOk (VDict d') rest | Err e => DErr e end
+           | _ => DErr (Foreign TypeError)
+           end
     end)).
 
 (* ------------------------------------------------------------------ StructTag *)
@@ -839,17 +788,16 @@ Definition struct_decode (ms : list (key * (bytes -> dres))) (bs : bytes) : dres
 Definition splice (buf : bytes) (a : nat) (e : bytes) : bytes :=
   firstn a buf ++ e ++ skipn (a + length e) buf.
 
-Fixpoint stag_encode_members (ms : list (key * (val -> res bytes))) (offs : list nat) (priv : list text)
+Fixpoint stag_encode_members (ms : list ((key * nat) * (val -> res bytes))) (priv : list text)
          (d : list (key * val)) (buf : bytes) : res bytes :=
-  match ms, offs with
-  | [], _ => Ok buf
-  | (k, enc) :: r, off :: offs' =>
-      if key_in k priv then stag_encode_members r offs' priv d buf
+  match ms with
+  | [] => Ok buf
+  | ((k, off), enc) :: r =>
+      if key_in k priv then stag_encode_members r priv d buf
       else
         let* x := dict_get d k in
         let* e := enc x in
-        stag_encode_members r offs' priv d (splice buf off e)
-  | _ :: _, [] => Err (Foreign KeyError)        (* cls._offsets[member] *)
+        stag_encode_members r priv d (splice buf off e)
   end.
 
 Fixpoint set_nth (buf : bytes) (i : nat) (f : Z -> Z) : option bytes :=
@@ -880,28 +828,28 @@ Fixpoint stag_encode_bits (bits : list (text * (nat * nat))) (d : list (key * va
         end
   end.
 
-Definition structtag_encode (ms : list (key * (val -> res bytes))) (offs : list nat)
+(* StructTag._encode (returns a bytearray) behind DataType.encode *)
+Definition structtag_encode (ms : list ((key * nat) * (val -> res bytes)))
            (bits : list (text * (nat * nat))) (priv : list text) (size : nat) : val -> res bytes :=
   pub_encode (fun v =>
     match v with
     | VDict d =>
-        let* buf := stag_encode_members ms offs priv d (zeros size) in
+        let* buf := stag_encode_members ms priv d (zeros size) in
         stag_encode_bits bits d buf
     | _ => Err (Foreign AttributeError)          (* values.items() *)
     end).
 
-(* members are decoded from a private sub-stream of the first [size] bytes; [pos] bytes of it have
-   been consumed; a member whose offset is ahead of the position is reached by skipping, one whose
-   offset is behind is decoded from the current position *)
-Fixpoint stag_decode_members (ms : list (key * (bytes -> dres))) (offs : list nat) (total : nat)
+(* members are decoded from a private sub-stream of the first [size] bytes; [total - length sub]
+   bytes of it have been consumed; a member whose offset is ahead of the position is reached by
+   skipping, one whose offset is behind is decoded from the current position *)
+Fixpoint stag_decode_members (ms : list ((key * nat) * (bytes -> dres))) (total : nat)
          (acc : list (key * val)) (sub : bytes) : dres :=
-  match ms, offs with
-  | [], _ => DOk (VDict acc) sub
-  | (k, dec) :: r, off :: offs' =>
+  match ms with
+  | [] => DOk (VDict acc) sub
+  | ((k, off), dec) :: r =>
       let pos := (total - length sub)%nat in
       let sub1 := if (pos <? off)%nat then skipn (off - pos) sub else sub in
-      dbind (dec sub1) (fun v sub2 => stag_decode_members r offs' total (dict_set acc k v) sub2)
-  | _ :: _, [] => DErr (Foreign KeyError)
+      dbind (dec sub1) (fun v sub2 => stag_decode_members r total (dict_set acc k v) sub2)
   end.
 
 Fixpoint stag_decode_bits (bits : list (text * (nat * nat))) (raw : bytes) (acc : list (key * val)) : res (list (key * val)) :=
@@ -914,12 +862,12 @@ Fixpoint stag_decode_bits (bits : list (text * (nat * nat))) (raw : bytes) (acc 
       end
   end.
 
-Definition structtag_decode (ms : list (key * (bytes -> dres))) (offs : list nat)
+Definition structtag_decode (ms : list ((key * nat) * (bytes -> dres)))
            (bits : list (text * (nat * nat))) (priv : list text) (size : nat) (bs : bytes) : dres :=
   let raw := firstn size bs in
   let rest := skipn size bs in
   dwrap (
-    match stag_decode_members ms offs (length raw) [] raw with
+    match stag_decode_members ms (length raw) [] raw with
     | DOk (VDict d) _ =>
         match stag_decode_bits bits raw d with
         | Ok d' => DOk (VDict (filter (fun kv => negb (key_in (fst kv) priv)) d')) rest
@@ -934,6 +882,26 @@ Definition structtag_decode (ms : list (key * (bytes -> dres))) (offs : list nat
 (* ------------------------------------------------------------------ the codec *)
 Definition bits_width (t : ty) : option nat := match t with TBits w => Some w | _ => None end.
 Definition is_bits (t : ty) : bool := match t with TBits _ => true | _ => false end.
+(* element / member types that are INSTANCES in every construction the library offers *)
+Definition is_instance (t : ty) : bool := match t with TNBytes _ => true | _ => false end.
+
+(* a member's encoding inside b"".join(...) / a bytearray slice assignment: a non-bytes object
+   (n_bytes given a str / list) is a TypeError there *)
+Definition as_member (t : ty) (enc : val -> res bytes) (x : val) : res bytes :=
+  match t, x with
+  | TNBytes _, VBytes _ => enc x
+  | TNBytes _, _ => let* _ := enc x in Err (Foreign TypeError)
+  | _, _ => enc x
+  end.
+
+(* what kind of object T.encode returns when it returns: 0 bytes/bytearray, 1 str, 2 list, 3 tuple *)
+Definition encode_result_kind (t : ty) (v : val) : Z :=
+  match t, v with
+  | TNBytes _, VStr _ => 1
+  | TNBytes _, VList _ => 2
+  | TNBytes _, VTuple _ => 3
+  | _, _ => 0
+  end.
 
 Fixpoint encode (t : ty) : val -> res bytes :=
   match t with
@@ -943,15 +911,16 @@ Fixpoint encode (t : ty) : val -> res bytes :=
   | TDateTime => datetime_encode
   | TStr lsg lw enc => str_encode lsg lw enc
   | TStringN => stringn_encode
+  | TStringI => stringi_encode
   | TNBytes n => nbytes_encode n
   | TBits w => bits_encode w
-  | TArrFixed n e => array_encode (Some n) (bits_width e) (encode e)
-  | TArrPrefix _ _ e => array_encode None (bits_width e) (encode e)
-  | TArrAll e => array_encode None (bits_width e) (encode e)
-  | TStruct ms => struct_encode (map (fun m => (fst m, encode (snd m))) ms)
+  | TArrFixed n e => array_encode (Some n) (bits_width e) (is_instance e) (as_member e (encode e))
+  | TArrPrefix _ _ e => array_encode None (bits_width e) (is_instance e) (as_member e (encode e))
+  | TArrAll e => array_encode None (bits_width e) (is_instance e) (as_member e (encode e))
+  | TStruct k ms => struct_encode k (map (fun m => (fst m, as_member (snd m) (encode (snd m)))) ms)
   | TFixedStr cap lsg lw => fixedstr_encode cap lsg lw
-  | TStructTag ms offs bits priv size =>
-      structtag_encode (map (fun m => (fst m, encode (snd m))) ms) offs bits priv size
+  | TStructTag ms bits priv size =>
+      structtag_encode (map (fun m => (fst m, as_member (snd m) (encode (snd m)))) ms) bits priv size
   | TIPAddr => ip_encode
   | TPcccAscii => pccc_ascii_encode
   | TPcccString => pccc_string_encode
@@ -965,24 +934,25 @@ Fixpoint decode_fuel (fuel : nat) (t : ty) {struct t} : bytes -> dres :=
   | TDateTime => datetime_decode
   | TStr lsg lw enc => str_decode lsg lw enc
   | TStringN => stringn_decode
+  | TStringI => stringi_decode
   | TNBytes n => nbytes_decode n
   | TBits w => bits_decode w
-  | TArrFixed n e => array_decode_fixed n (is_bits e) (decode_fuel fuel e)
-  | TArrPrefix _ _ e => array_decode_prefix
+  | TArrFixed n e => array_decode_fixed n (is_bits e) (is_instance e) (decode_fuel fuel e)
+  | TArrPrefix inst lt e => array_decode_prefix inst (decode_fuel fuel lt)
   | TArrAll e => array_decode_all (decode_fuel fuel e) fuel
-  | TStruct ms => struct_decode (map (fun m => (fst m, decode_fuel fuel (snd m))) ms)
+  | TStruct k ms => struct_decode k (map (fun m => (fst m, decode_fuel fuel (snd m))) ms)
   | TFixedStr cap lsg lw => fixedstr_decode cap lsg lw
-  | TStructTag ms offs bits priv size =>
-      structtag_decode (map (fun m => (fst m, decode_fuel fuel (snd m))) ms) offs bits priv size
+  | TStructTag ms bits priv size =>
+      structtag_decode (map (fun m => (fst m, decode_fuel fuel (snd m))) ms) bits priv size
   | TIPAddr => ip_decode
   | TPcccAscii => pccc_ascii_decode
   | TPcccString => pccc_string_decode
   end.
 
-(* The fuel-free view other models import.  Fuel [S (length bs)] is enough for every call that
-   terminates (Proofs/CodecErr.v: decode_fuel_enough); a call that does NOT terminate in the
-   implementation is mapped to a FOREIGN exception, so that no statement of the form "only library
-   exceptions escape" can hold of it by accident. *)
+(* The fuel-free view.  Fuel [S (length bs)] is enough for every call that terminates in the
+   implementation on types whose elements consume input; a call that does NOT terminate within the
+   fuel is mapped to a FOREIGN exception, so that no statement of the form "only library exceptions
+   escape" can hold of it by accident. *)
 Definition hang_marker : exn := Foreign StopIteration.
 Definition res_of_dres (r : dres) : res (val * bytes) :=
   match r with
@@ -994,21 +964,48 @@ Definition res_of_dres (r : dres) : res (val * bytes) :=
 Definition decode (t : ty) (bs : bytes) : res (val * bytes) :=
   res_of_dres (decode_fuel (S (length bs)) t bs).
 
+(* ------------------------------------------------------------------ positional calls T.encode( *args ) *)
 (* the `length=` argument of Array.encode / Array.decode: `_length = length or cls.length` *)
 Definition elem_of (t : ty) : option ty :=
   match t with TArrFixed _ e | TArrPrefix _ _ e | TArrAll e => Some e | _ => None end.
-Definition with_length (t : ty) (len : Z) : ty :=
+(* the array type the call behaves as, for a `length` value; None: a non-integer truthy length
+   (outside the model) *)
+Definition with_length (t : ty) (len : val) : option ty :=
   match elem_of t with
-  | Some e => if len =? 0 then t else TArrFixed (Z.to_nat len) e
-  | None => t
+  | Some e =>
+      if truthy len then
+        match len with
+        | VInt z => if 0 <=? z then Some (TArrFixed (Z.to_nat z) e) else None
+        | VBool _ => Some (TArrFixed 1 e)
+        | _ => None
+        end
+      else Some t
+  | None => None
   end.
-Definition encode_len (t : ty) (len : Z) : val -> res bytes := encode (with_length t len).
-Definition decode_len_fuel (fuel : nat) (t : ty) (len : Z) : bytes -> dres := decode_fuel fuel (with_length t len).
+
+Definition encode_args (t : ty) (args : list val) : res bytes :=
+  match t, args with
+  | TDateTime, time :: date :: _ => datetime_encode2 time date
+  | TStringN, [v; cs] => stringn_encode_cs cs v
+  | TStringI, _ => stringi_encode_args args
+  | (TArrFixed _ _ | TArrPrefix _ _ _ | TArrAll _), [values; len] =>
+      match with_length t len with
+      | Some t' => encode t' values
+      | None => Err (Foreign NotImplementedError)
+      end
+  | _, [v] => encode t v
+  | _, _ => Err (Foreign TypeError)                (* missing / unexpected positional argument *)
+  end.
+Definition decode_len_fuel (fuel : nat) (t : ty) (len : val) (bs : bytes) : dres :=
+  match with_length t len with
+  | Some t' => decode_fuel fuel t' bs
+  | None => DErr (Foreign NotImplementedError)
+  end.
 
 (* ------------------------------------------------------------------ Struct instances of custom_types.py *)
-Definition n_BYTES := [66; 89; 84; 69; 83].
-Definition n_Revision := [82; 101; 118; 105; 115; 105; 111; 110].
-Definition n_IPAddress := [73; 80; 65; 100; 100; 114; 101; 115; 115].
+Definition n_BYTES := zs_of_string "BYTES".
+Definition n_Revision := zs_of_string "Revision".
+Definition n_IPAddress := zs_of_string "IPAddress".
 
 Definition ty_of_desc (revision : option ty) (d : list Z * Z) : option ty :=
   let '(c, p) := d in
@@ -1027,8 +1024,8 @@ Fixpoint members_of_desc (revision : option ty) (ms : list (option (list Z) * (l
       end
   end.
 
-Definition Revision_ty : option ty := option_map TStruct (members_of_desc None revision_members).
-(* as plain Struct instances (the _encode/_decode post-processing of the identity objects is
-   Model/Identity.v, property C16) *)
-Definition ModuleIdentity_struct : option ty := option_map TStruct (members_of_desc Revision_ty module_identity_members).
-Definition ListIdentity_struct : option ty := option_map TStruct (members_of_desc Revision_ty list_identity_members).
+Definition Revision_ty : option ty := option_map (TStruct SPlain) (members_of_desc None revision_members).
+Definition ModuleIdentityObject_ty : option ty :=
+  option_map (TStruct SModuleIdentity) (members_of_desc Revision_ty module_identity_members).
+Definition ListIdentityObject_ty : option ty :=
+  option_map (TStruct SListIdentity) (members_of_desc Revision_ty list_identity_members).
